@@ -12,12 +12,17 @@ Oracle: exact combinatorial predicates, clause by clause from the statement.
                 dimensions whose monotonicity constraint is set
     label       with separate_outputs, a lattice's output is under 'increasing'
                 exactly when the lattice receives an 'increasing' input
+    outputs     without separate_outputs the documented (batch, num_lattices)
+                output holds every lattice's output exactly once, the
+                averaged (batch, 1) output their mean
     determinism two fresh layers with equal arguments are wired identically
                 (the global numpy / TF generators are disturbed in between)
   random ensemble (premade_lib.set_random_lattice_ensemble)
     count, rank, coverage, no feature twice in a lattice, determinism
   Crystals prefitting cover (premade_lib.construct_prefitting_model_config)
-    every feature pair is together in some prefitting lattice, determinism
+    every feature pair is together in some prefitting lattice, no prefitting
+    lattice exceeds lattice_rank, names an unknown feature or repeats one,
+    determinism
   Crystals ensemble (premade_lib.set_crystals_lattice_ensemble on a real
   prefitting premade.CalibratedLatticeEnsemble with assigned lattice kernels)
     count, rank, coverage, determinism
@@ -83,8 +88,10 @@ LEVEL_TEXT = ("Generated-input exploration of the three ensemble builders: "
               "run; every arrangement is checked for lattice count, exactly "
               "lattice_rank inputs per lattice, coverage of all features, "
               "balanced repeats (RTL), absence of repeats inside a lattice "
-              "(random), pair coverage (Crystals prefitting cover), monotone "
-              "wiring and output labels (RTL, observed through the real call) "
+              "(random), pair coverage, lattice size <= lattice_rank and known, "
+              "unrepeated names (Crystals prefitting cover), monotone "
+              "wiring, output labels and the joint / averaged output holding "
+              "every lattice output once (RTL, observed through the real call) "
               "and equality of two independent builds with the same seed. "
               "Catches index/monotonicity mis-wiring, truncation, unseeded "
               "randomness and off-by-one mistakes; shows no absence.")
@@ -92,9 +99,14 @@ LEVEL_NOTE = ("Trusted: TensorFlow/NumPy, the harness, the sub-lattice layers' "
               "`monotonicities` attribute. Sizes bounded as stated in the "
               "rule. Crystals failures on degenerate prefitting kernels are "
               "reported with the narrow kinds crystals-nan (F-C17-1), "
-              "crystals-inf and crystals-assert.")
+              "crystals-inf and crystals-assert. The upper bound lattice_rank "
+              "on a prefitting lattice is read from the config field "
+              "('number of features in each lattice'); a prefitting lattice "
+              "whose kernel does not have 2**features weights is reported "
+              "(crystals-prefit-shape) because the library's extraction reads "
+              "it as a size-2 lattice.")
 
-ENTRIES = (["rtl"] * 12 + ["random"] * 14 + ["cover"] * 10 + ["crystals"] * 2)
+ENTRIES = (["rtl"] * 12 + ["random"] * 14 + ["cover"] * 10 + ["crystals"] * 5)
 KMODES = (["random"] * 10 + ["shared"] * 2 + ["additive"] * 3 + ["ties"] * 2 +
           ["degenerate", "one-feature"])
 RANDOM_KINDS = ["normal", "normal", "uniform", "ints", "sorted", "antisorted",
@@ -205,7 +217,9 @@ def _rtl_case(draw, tier):
       "num_lattices": draw(_num_lattices(n, rank, big)),
       "lattice_size": draw(st.sampled_from([2, 2, 2, 3])),
       "separate": separate,
-      "average": (not separate) and draw(st.booleans()),
+      # drawn independently: the flag is documented as "ignored when
+      # separate_outputs is True"
+      "average": draw(st.booleans()),
       "avoid": draw(st.sampled_from([True, True, False])),
       "param": param,
       "interp": "hypercube" if param != "all_vertices" else draw(
@@ -236,7 +250,7 @@ def _names(draw, n, keras_safe):
 @st.composite
 def _ensemble_case(draw, tier, entry):
   big = tier == "thorough"
-  if entry == "crystals" and draw(_uni(0, 2)) == 0:
+  if entry == "crystals" and draw(_uni(0, 5)) == 0:
     return copy.deepcopy(draw(st.sampled_from(CATALOG)))
   if entry == "random":
     n = draw(_uni(1, 30 if big else 12))
@@ -250,16 +264,46 @@ def _ensemble_case(draw, tier, entry):
     n = draw(_uni(3, 8 if big else 6))
     rank = min(n - 1, draw(st.sampled_from(
         [2, 2, 3, 3, 4] + ([5] if big else []))))
+  names = draw(_names(n, keras_safe=entry == "crystals"))
+  # via: "configs" = names taken from model_config.feature_configs;
+  # "names" = feature_names=... given (for random without feature configs);
+  # "names+configs" = feature_names given together with feature configs that
+  # are ordered differently and (random / cover) describe extra features too:
+  # the documented rule is that feature_names wins.
+  via = draw(st.sampled_from(["configs", "configs", "names", "names+configs"]))
+  extra = 0
+  if via == "names+configs" and entry != "crystals":
+    extra = draw(_uni(0, 3))
   case = {
       "entry": entry,
-      "names": draw(_names(n, keras_safe=entry == "crystals")),
-      "via": "configs" if entry == "crystals" else draw(
-          st.sampled_from(["configs", "names"])),
+      "names": names,
+      "via": via,
+      "extra": extra,
+      "cfg_order": draw(S.seeds),
       "rank": rank,
       "num_lattices": draw(_num_lattices(n, rank, big and entry != "crystals")),
       "seed": draw(st.one_of(_uni(0, 50), S.seeds)),
       "aux": draw(S.seeds),
   }
+  # feature options (every one must leave the arrangement rules untouched;
+  # the prefitting config has to trim sizes / unimodality / trust / dominance):
+  # per feature one of plain, categorical, size3, unimodal, monotone; plus at
+  # most one dominance and one trust pair between monotone features.
+  deco = draw(st.sampled_from(["plain", "plain", "mixed", "mixed", "pairs"]))
+  kinds = ["plain"] * n
+  pairs = {"dominance": None, "trust": None}
+  if deco != "plain":
+    kinds = [draw(st.sampled_from(["plain", "categorical", "size3",
+                                   "unimodal", "monotone"])) for _ in range(n)]
+  if deco == "pairs" and n >= 3:
+    a, b, c = draw(st.permutations(list(range(n))))[:3]
+    kinds[a] = kinds[b] = "monotone"
+    pairs["dominance"] = [a, b]
+    pairs["trust"] = [a, c, draw(st.sampled_from(["edgeworth", "trapezoid"]))]
+    if kinds[c] == "categorical":
+      kinds[c] = "plain"
+  case["feature_kinds"] = kinds
+  case["pairs"] = pairs
   if entry == "crystals":
     case["kmode"] = draw(st.sampled_from(KMODES))
     case["kernel"] = {"kind": draw(st.sampled_from(RANDOM_KINDS)),
@@ -420,6 +464,13 @@ def _rtl_observe(case, src):
       lattices.append({"id": rec["base"] + u, "sources": [int(i) for i in ids],
                        "mono": mono, "units_in_layer": xx.shape[1]})
   routed = None
+  joint = None
+  if not case["separate"]:
+    if isinstance(y, dict) or not hasattr(y, "numpy"):
+      problems.append("separate_outputs=False returned %s, not a tensor" %
+                      type(y).__name__)
+    else:
+      joint = np.asarray(y.numpy(), np.float64)
   if case["separate"]:
     routed = {}
     if not isinstance(y, dict):
@@ -435,6 +486,7 @@ def _rtl_observe(case, src):
                                             for lat in lats]]
                  for monos, lats in structure]
   return {"lattices": lattices, "routed": routed, "structure": structure,
+          "joint": None if joint is None else joint.tolist(),
           "problems": problems}
 
 
@@ -450,7 +502,8 @@ def _run_rtl(case, out):
   out.label("entry:rtl", "rtl:" + mix, "rtl:form:" + "+".join(forms),
             "rtl:multi-unit-groups" if grouped else "rtl:single-unit-groups",
             "rtl:" + _slack_label(nl * rank, n),
-            "rtl:separate" if case["separate"] else
+            "rtl:separate+average-flag" if case["separate"] and case["average"]
+            else "rtl:separate" if case["separate"] else
             "rtl:averaged" if case["average"] else "rtl:joint",
             "rtl:" + case["param"], "rtl:rank:%d" % rank,
             "rtl:avoid" if case["avoid"] else "rtl:no-avoid",
@@ -527,6 +580,35 @@ def _run_rtl(case, out):
                   (want_inc, got_inc, want_unc, got_unc,
                    "; extra keys %r" % sorted(extra) if extra else ""),
                   kind="output-label", entry="rtl")
+  # joint / averaged output: the sub-lattice outputs were replaced by the
+  # lattice identifiers, so the documented output (batch, num_lattices) must
+  # hold every identifier exactly once, and the averaged output (batch, 1)
+  # their mean.
+  if not case["separate"] and a["joint"] is not None:
+    out.checks += 1
+    arr = np.asarray(a["joint"], np.float64)
+    ids = sorted(l["id"] for l in lats)
+    if case["average"]:
+      want = float(np.mean(ids)) if ids else 0.0
+      out.label("rtl:outputs:averaged-checked")
+      if arr.shape != (case["batch"], 1) or np.any(
+          np.abs(arr - want) > 1e-5 * max(1.0, abs(want))):
+        out.violate("averaged output has shape %r and values %r; the mean of "
+                    "the %d lattice outputs is %r" % (
+                        arr.shape, arr.reshape(-1)[:4].tolist(), len(ids),
+                        want), kind="averaged-output", entry="rtl")
+    else:
+      out.label("rtl:outputs:joint-checked")
+      rows = [sorted(int(round(v)) for v in row) for row in arr.reshape(
+          arr.shape[0], -1)] if arr.ndim >= 1 and arr.size else []
+      if arr.shape != (case["batch"], nl) or any(r != ids for r in rows) or (
+          np.any(arr != np.rint(arr))):
+        out.violate("joint output has shape %r and first row %r; expected "
+                    "every one of the %d lattice outputs once, shape %r" % (
+                        arr.shape, arr.reshape(arr.shape[0], -1)[0][
+                            :8].tolist() if arr.size else [], len(ids),
+                        (case["batch"], nl)), kind="joint-output",
+                    entry="rtl")
   # _rtl_structure (OBSERVE AT): same counting clauses on the stored indices
   st_ = a["structure"]
   if st_ is not None:
@@ -554,7 +636,8 @@ def _run_rtl(case, out):
   out.checks += 1
   wa = [(l["sources"], l["mono"]) for l in a["lattices"]]
   wb = [(l["sources"], l["mono"]) for l in b["lattices"]]
-  if wa != wb or a["routed"] != b["routed"] or a["structure"] != b["structure"]:
+  if (wa != wb or a["routed"] != b["routed"] or
+      a["structure"] != b["structure"] or a["joint"] != b["joint"]):
     out.violate("two RTL layers built with random_seed=%d are wired "
                 "differently: %r vs %r" % (case["seed"], wa[:4], wb[:4]),
                 kind="determinism", entry="rtl")
@@ -562,17 +645,68 @@ def _run_rtl(case, out):
 
 # --------------------------------------------------------------------------
 # premade ensembles
+def _feature_configs(case):
+  """Feature configs of the case: kinds / pairs as drawn; for
+  via == "names+configs" in a shuffled order with `extra` more features that
+  feature_names does not mention."""
+  import tensorflow_lattice as tfl
+  names = case["names"]
+  kinds = case.get("feature_kinds") or ["plain"] * len(names)
+  fcs = []
+  for nm, kind in zip(names, kinds):
+    kw = {}
+    if kind == "categorical":
+      kw = dict(num_buckets=3)
+    else:
+      kw = dict(pwl_calibration_num_keypoints=2,
+                pwl_calibration_input_keypoints=[0.0, 1.0])
+      if kind in ("size3", "unimodal"):
+        kw["lattice_size"] = 3
+      if kind == "unimodal":
+        kw["unimodality"] = "valley"
+      if kind == "monotone":
+        kw["monotonicity"] = "increasing"
+    fcs.append(tfl.configs.FeatureConfig(name=nm, **kw))
+  pairs = case.get("pairs") or {}
+  if pairs.get("dominance"):
+    a, b = pairs["dominance"]
+    fcs[a].dominates = [tfl.configs.DominanceConfig(feature_name=names[b])]
+  if pairs.get("trust"):
+    a, c, ttype = pairs["trust"]
+    fcs[c].reflects_trust_in = [tfl.configs.TrustConfig(
+        feature_name=names[a], trust_type=ttype)]
+  if case.get("via") == "names+configs":
+    for k in range(case.get("extra", 0)):
+      fcs.append(tfl.configs.FeatureConfig(
+          name="EXTRA%d" % k, pwl_calibration_num_keypoints=2,
+          pwl_calibration_input_keypoints=[0.0, 1.0]))
+    order = np.random.RandomState(case.get("cfg_order", 0)).permutation(
+        len(fcs))
+    fcs = [fcs[int(i)] for i in order]
+  return fcs
+
+
 def _model_config(case, lattices, with_configs=True):
   import tensorflow_lattice as tfl
-  fcs = None
-  if with_configs:
-    fcs = [tfl.configs.FeatureConfig(
-        name=nm, pwl_calibration_num_keypoints=2,
-        pwl_calibration_input_keypoints=[0.0, 1.0]) for nm in case["names"]]
+  fcs = _feature_configs(case) if with_configs else None
   return tfl.configs.CalibratedLatticeEnsembleConfig(
       feature_configs=fcs, lattices=lattices,
       num_lattices=case["num_lattices"], lattice_rank=case["rank"],
       random_seed=case["seed"], output_initialization=[0.0, 1.0])
+
+
+def _deco_labels(case, entry):
+  kinds = set(case.get("feature_kinds") or ["plain"])
+  labels = [entry + ":features:" + k for k in sorted(kinds - {"plain"})] or [
+      entry + ":features:plain"]
+  pairs = case.get("pairs") or {}
+  if pairs.get("dominance") or pairs.get("trust"):
+    labels.append(entry + ":features:dominance+trust")
+  if case.get("via") == "names+configs":
+    labels.append(entry + ":configs-shuffled")
+    if case.get("extra"):
+      labels.append(entry + ":configs-superset")
+  return labels
 
 
 def _as_lists(lattices):
@@ -615,11 +749,11 @@ def _run_random(case, out):
   out.label("entry:random", "random:via-" + case["via"],
             "random:" + _slack_label(nl * rank, n),
             "random:rank=features" if rank == n else "random:rank<features",
-            "random:" + _seed_label(case["seed"]))
+            "random:" + _seed_label(case["seed"]), *_deco_labels(case, "random"))
   out.nontrivial = bool(nl >= 2 and n >= 2)
 
   def build():
-    mc = _model_config(case, "random", with_configs=case["via"] == "configs")
+    mc = _model_config(case, "random", with_configs=case["via"] != "names")
     if case["via"] == "configs":
       premade_lib.set_random_lattice_ensemble(mc)
     else:
@@ -640,6 +774,23 @@ def _run_random(case, out):
 
 def _check_cover(case, cover, out, entry):
   names = case["names"]
+  # the prefitting lattices are lattices of a config with this lattice_rank
+  # ("number of features in each lattice"): none may be larger, name a
+  # feature that feature_names / the configs do not have, or repeat one.
+  out.checks += 3
+  big = [l for l in cover if len(l) > case["rank"] or not l]
+  if big:
+    out.violate("prefitting lattice %r has %d features, lattice_rank=%d" % (
+        big[0], len(big[0]), case["rank"]), kind="cover-lattice-size",
+                entry=entry)
+  unknown = sorted(set(f for l in cover for f in l) - set(names))
+  if unknown:
+    out.violate("prefitting lattices use %r which is no feature name" %
+                unknown[:3], kind="unknown-feature", entry=entry)
+  rep = [l for l in cover if len(set(l)) != len(l)]
+  if rep:
+    out.violate("prefitting lattice %r repeats a feature" % rep[0],
+                kind="repeat", entry=entry)
   out.checks += 1
   sets = [set(l) for l in cover]
   for f, g in itertools.combinations(names, 2):
@@ -654,7 +805,7 @@ def _run_cover(case, out):
   n, rank = len(case["names"]), case["rank"]
   out.label("entry:cover", "cover:via-" + case["via"],
             "cover:rank:%s" % (rank if rank < 4 else ">=4"),
-            "cover:" + _seed_label(case["seed"]))
+            "cover:" + _seed_label(case["seed"]), *_deco_labels(case, "cover"))
   out.nontrivial = True
 
   def build():
@@ -752,18 +903,32 @@ def _run_crystals(case, out):
   import tensorflow_lattice as tfl
   from tensorflow_lattice.python import premade_lib
   n, rank, nl = len(case["names"]), case["rank"], case["num_lattices"]
+  via = case.get("via", "configs")
   out.label("entry:crystals", "crystals:kernels:" + case["kmode"],
-            "crystals:" + _slack_label(nl * rank, n))
+            "crystals:" + _slack_label(nl * rank, n), "crystals:via-" + via,
+            *_deco_labels(case, "crystals"))
   out.nontrivial = bool(nl >= 2)
   _disturb_global_rngs(case["aux"])
+  fn_kw = {} if via == "configs" else {"feature_names": list(case["names"])}
   mc = _model_config(case, "crystals")
-  pc = premade_lib.construct_prefitting_model_config(mc)
+  pc = premade_lib.construct_prefitting_model_config(mc, **fn_kw)
   cover = _as_lists(pc.lattices)
   _check_cover(case, cover, out, "crystals")
+  if out.violations:
+    return
   model = tfl.premade.CalibratedLatticeEnsemble(pc)
   constant = False
   for i, lat in enumerate(cover):
     layer = model.get_layer("tfl_lattice_%d" % i)
+    out.checks += 1
+    if int(np.prod(layer.kernel.shape)) != 2 ** len(lat):
+      # the extraction (premade_lib._get_torsions_and_laplacians) reads every
+      # prefitting lattice as a [2] * len(lattice) lattice
+      out.violate("prefitting lattice %d over %d features has a kernel of "
+                  "shape %r, not 2**%d weights" % (
+                      i, len(lat), tuple(layer.kernel.shape), len(lat)),
+                  kind="crystals-prefit-shape", entry="crystals")
+      return
     k = _prefit_kernel(case, i, len(lat))
     constant = constant or float(np.ptp(k)) == 0.0
     layer.kernel.assign(k.reshape(layer.kernel.shape))
@@ -773,7 +938,7 @@ def _run_crystals(case, out):
   def extract():
     cfg = _model_config(case, "crystals")
     with np.errstate(all="ignore"):
-      premade_lib.set_crystals_lattice_ensemble(cfg, pc, model)
+      premade_lib.set_crystals_lattice_ensemble(cfg, pc, model, **fn_kw)
     return _as_lists(cfg.lattices)
 
   try:
